@@ -262,11 +262,23 @@ type c07wCase struct {
 	L     int32 `json:"local"`
 	R     int32 `json:"remote"`
 	Shard int32 `json:"shard"`
+	// other settings of the same connection that must not change the shard space presented
+	FVILocal  int64 `json:"fvi_local,omitempty"`  // failoverVersionIncrementTranslation.local
+	FVIRemote int64 `json:"fvi_remote,omitempty"` // failoverVersionIncrementTranslation.remote
+	NSMap     bool  `json:"ns_map,omitempty"`     // a namespace translation is configured
+	RepEP     bool  `json:"rep_ep,omitempty"`     // replicationEndpoint override is configured
 }
 
 func c07wRun(c c07wCase) error {
 	w, err := vfNewTCPWorld(func(cfg *config.ClusterConnConfig) {
 		cfg.ShardCountConfig = config.ShardCountConfig{Mode: config.ShardCountLCM, LocalShardCount: c.L, RemoteShardCount: c.R}
+		cfg.FVITranslation = config.IntMapping{Local: c.FVILocal, Remote: c.FVIRemote}
+		if c.NSMap {
+			cfg.NamespaceTranslation = config.StringTranslator{Mappings: []config.StringMapping{{Local: "ns-local", Remote: "ns-remote"}}}
+		}
+		if c.RepEP {
+			cfg.ReplicationEndpoint = "proxy.example:7233"
+		}
 	})
 	if err != nil {
 		return fmt.Errorf("HARNESS: %v", err)
@@ -325,7 +337,7 @@ func TestVF_C07_Wiring(t *testing.T) {
 	if rp := vfshared.ReplayPart(); rp != "" && rp != part {
 		t.Skip()
 	}
-	st := vfshared.NewStats("C07", part, "ClusterConnection really assembled by NewClusterConnection from an LCM-mode config (loopback TCP, fake Temporal on both sides): DescribeCluster through the inbound and the outbound server reports the LCM; a replication stream opened for LCM shard s through either server reaches the serving cluster exactly once with server shard (s-1) mod count + 1 under the SERVING side's count and client shard s; non-trivial = neither count divides the other and L != R")
+	st := vfshared.NewStats("C07", part, "ClusterConnection really assembled by NewClusterConnection from an LCM-mode config (loopback TCP, fake Temporal on both sides; the connection's other settings - failover-version-increment override, replication endpoint override, namespace translation - on or off): DescribeCluster through the inbound and the outbound server reports the LCM; a replication stream opened for LCM shard s through either server reaches the serving cluster exactly once with server shard (s-1) mod count + 1 under the SERVING side's count and client shard s; non-trivial = neither count divides the other and L != R")
 	defer st.Flush()
 	if f := vfshared.ReplayFile(); f != "" {
 		var c c07wCase
@@ -341,11 +353,19 @@ func TestVF_C07_Wiring(t *testing.T) {
 	rapid.Check(t, func(rt *rapid.T) {
 		c := c07wCase{L: rapid.SampledFrom([]int32{1, 2, 3, 4, 6, 8, 9, 12, 16, 512}).Draw(rt, "l"), R: rapid.SampledFrom([]int32{1, 2, 3, 4, 5, 6, 10, 12, 27, 1024}).Draw(rt, "r"),
 			Shard: rapid.Int32Range(1, 1<<20).Draw(rt, "shard")}
+		c.FVILocal = rapid.SampledFrom([]int64{0, 0, 100, 1000000}).Draw(rt, "fviL")
+		c.FVIRemote = rapid.SampledFrom([]int64{0, 0, 100, 1000000}).Draw(rt, "fviR")
+		c.NSMap = rapid.Bool().Draw(rt, "nsMap")
+		c.RepEP = rapid.Bool().Draw(rt, "repEP")
 		if err := c07wRun(c); err != nil {
 			c07Fail(rt, st, part, c, err)
 		}
 		nt := c.L%c.R != 0 && c.R%c.L != 0
-		st.Case(vfshared.Fingerprint(c), nt)
+		var cl []string
+		if c.FVILocal != 0 || c.FVIRemote != 0 {
+			cl = append(cl, "with_failover_version_increment_override")
+		}
+		st.Case(vfshared.Fingerprint(c), nt, cl...)
 		if nt && st.WantSample() {
 			st.Sample(c)
 		}
